@@ -198,6 +198,61 @@ LAYS_1D = ["c", "c", "s2", "s3", "rev", "rev", "w"]
 LAYS_ND = ["c", "c", "f", "s2", "rev", "perm", "w", "revl", "neg"]
 
 
+def degenerate(rng, n, L, flat, p=0.15):
+    """with probability p give the data (n rows of L lanes, row-major) a special structure: all rows equal (every lane constant
+    along the interpolation axis), one lane constant, everything zero, every lane an affine function of the row number, or
+    rows symmetric about the middle.  Shortcuts keyed on such data must still honour everything else (boundary values, other lanes)."""
+    if rng.random() >= p or n == 0 or L == 0:
+        return flat
+    flat = list(flat)
+    zero = flat[0] - flat[0]
+    kind = rng.choice(["const", "lane", "zero", "affine", "sym"])
+    if kind == "const":
+        for i in range(1, n):
+            flat[i * L:(i + 1) * L] = flat[:L]
+    elif kind == "lane":
+        j = rng.randrange(L)
+        for i in range(1, n):
+            flat[i * L + j] = flat[j]
+    elif kind == "zero":
+        flat = [zero] * len(flat)
+    elif kind == "affine":
+        for j in range(L):
+            a, b = flat[j], (flat[L + j] - flat[j]) if n > 1 else zero
+            for i in range(n):
+                flat[i * L + j] = a + b * i
+    else:
+        for i in range(n // 2):
+            flat[(n - 1 - i) * L:(n - i) * L] = flat[i * L:(i + 1) * L]
+    return flat
+
+
+def structured_grid(rng, nx, ny, L, flat, p=0.15):
+    """with probability p give 2-D data (nx x ny nodes of L lanes) a special structure: a symmetric Toeplitz table f(|i-j|), a
+    checkerboard, a constant, an additively separable table — cells whose corners coincide in pairs"""
+    if rng.random() >= p or nx * ny * L == 0:
+        return flat
+    flat = list(flat)
+    zero = flat[0] - flat[0]
+    kind = rng.choice(["toeplitz", "checker", "const", "separable", "rows"])
+    for l in range(L):
+        pool = [flat[k * L + l] for k in range(nx * ny)]
+        for i in range(nx):
+            for j in range(ny):
+                k = (i * ny + j) * L + l
+                if kind == "toeplitz":
+                    flat[k] = pool[abs(i - j) % len(pool)]
+                elif kind == "checker":
+                    flat[k] = pool[(i + j) % 2]
+                elif kind == "const":
+                    flat[k] = pool[0]
+                elif kind == "separable":
+                    flat[k] = pool[i % len(pool)] + pool[(nx + j) % len(pool)]
+                else:
+                    flat[k] = pool[i % len(pool)]
+    return flat
+
+
 def auto_lay(pool, *key):
     """a memory layout chosen from the content of the case (no layout given by the caller): every family of every check
     meets every layout of every array argument; half of the cases stay in plain C order"""
